@@ -93,6 +93,7 @@ STR_POOLS = {
     "empty": [""],
     "quotes": ['"', "'", '""', "'''", 'a"b', "it's", '"""', 'end"', "end'", '\\', 'a\\b', '\\"', 'x\\', "\\n"],
     "ws": ["\t", "\n", "\r", "\r\n", " a ", "a\tb", "line1\nline2", "a\rb", "  "],
+    "longquote-tail": ['a\nb""""', 'x\n"""""', 'l1\nl2"""""""', 'a\n""', 'a\n"', '\n""""""""', 'a\nb\\"""""', "a\nb"],   # multi-line text ending in runs of quotes
     "c0": ["\x01", "\x08", "\x0b", "\x0c", "\x1f", "a\x7fb", "\x00"],
     "c1": ["\x80", "\x85", "\x9f"],
     "xml": ["<", ">", "&", "&amp;", "<a>b</a>", "]]>", "a<b&c>d", "&#13;"],
